@@ -146,3 +146,15 @@ gscore = Fn(IG + 'score', ret='r', level='L1', valid=SCORE_VALID,
 UNITS.append(Unit('C06_glm_score', 'C06', [gscore], use=[c06.predict, c06.deviance] + core.core_stubs(), types=GLM_TYPES, type_spec=core.TYPE_SPEC,
                   spec=c06.SPEC + c06.FAM_SPEC + c06.PRED_SPEC + c06.DEV_SPEC + c06c.PDEV_SPEC, preludes=PRE, broadcast=BC, level='L1',
                   notes='GLM::score is the family deviance of the responses against the predictions of the fitted model (unfitted model / shape mismatch rejected)'))
+
+# ---------------------------------------------------------------- remaining trivial constructors / accessors of Vector and Matrix
+from contracts.core import VEC, MAT
+m_with_cap = Fn(IM + 'with_capacity', ret='m', level='L0', requires=['C15.with_capacity.machine:: nrows * ncols <= usize::MAX'],
+                ensures=['C15.with_capacity.empty:: m.nrows == 0 && m.ncols == 0 && m.data.v@.len() == 0 && wf(m)'])
+m_default = Fn(MAT + '{impl Default for Matrix}::default', ret='m', level='L0', inherent=True,
+               ensures=['C15.default.matrix:: m.nrows == 0 && m.ncols == 0 && m.data.v@.len() == 0 && wf(m)'])
+v_default = Fn(VEC + '{impl Default for Vector}::default', ret='r', level='L0', inherent=True, ensures=['C15.default.vector:: r.v@.len() == 0'])
+m_data_mut = Fn(IM + 'data_mut', ret='r', level='L0', ensures=['C15.data_mut.cur:: *r == old(self).data', 'C15.data_mut.fin:: final(self).data == *final(r) && final(self).nrows == old(self).nrows && final(self).ncols == old(self).ncols'])
+v_as_ref = Fn(VEC + '{impl AsRef<[f64]> for Vector}::as_ref', ret='r', level='L0', inherent=True, ensures=['C15.as_ref:: r@ == self.v@'])
+UNITS.append(Unit('C15_trivia', 'C15', [m_with_cap, m_default, v_default, m_data_mut, v_as_ref], use=core.core_stubs(), types=core.TYPES, type_spec=core.TYPE_SPEC, spec=c15.SPEC, preludes=PRE, broadcast=BC, level='L0',
+                  notes='Matrix::with_capacity / Default: the empty 0 x 0 matrix (well-formed); Vector::default: empty; data_mut / as_ref hand out the stored data'))
